@@ -143,7 +143,7 @@ class ServerSession:
         if isinstance(msg, M.CannotConnect.Request) and srv.relay_connect_to_peer:
             tgt = srv.session_of(msg.username) if msg.username else None
             if tgt is not None:
-                tgt.send(M.CannotConnect.Response(msg.ticket, self.username))
+                tgt.send(M.CannotConnect.Response(msg.ticket))
             return
 
 
